@@ -819,7 +819,7 @@ Qed.
 
 (* ZD: the finally selected candidate was evaluated in a successful search of the chosen list
    and has non-positive excess at maximum height *)
-Lemma searchZD_selected nested cap cont it e drill z : searchZD nested cap cont it e drill = Ok z ->
+Lemma searchZD_selected nested cap cont it e drill z : searchZD nested cap cont it e drill = Ok z -> zd_escaped z = false ->
   exists o v, search1d (nthZ nested (zd_outer z)) cap cont it (e (zd_outer z)) = Ok o /\
               In (zd_sel z, v) (calc_out o) /\ (v <= 0)%Q /\ v = e (zd_outer z) (zd_sel z) Hmax.
 Proof.
@@ -830,10 +830,11 @@ Proof.
   destruct heights as [|h0 rest]; [discriminate|].
   destruct (argmin_first rest h0) as [ko dmin].
   destruct (find (fun kc => fst kc =? ko) calcs) as [[k1 calc]|] eqn:Ef; cbn [snd];
-  [|cbn; discriminate].
-  set (negs := filter _ (map snd calc)). destruct negs as [|n0 nt] eqn:En; [discriminate|].
+  [|discriminate].
+  set (negs := filter _ (map snd calc)). destruct negs as [|n0 nt] eqn:En.
+  { destruct (search1d (nthZ nested ko) cap cont it (e ko)); [|discriminate]. intros H Hesc; inversion H; subst z; cbn in Hesc; discriminate. }
   destruct (index_of_value calc (qmaxl (n0 :: nt))) as [k|] eqn:Ei; [|discriminate].
-  intros H; inversion H; subst z; cbn.
+  intros H _; inversion H; subst z; cbn.
   apply find_some in Ef. destruct Ef as [Hin Hk]. cbn in Hk. assert (k1 = ko) by lia. subst k1.
   destruct (zd_loop_calcs _ _ _ _ _ _ _ _ _ _ _ _ _ _ _ _ _ EL ko calc Hin) as [[]|(o & Ho & Ec)].
   subst calc. destruct (index_of_value_some _ _ _ Ei) as (v & A & B).
@@ -857,11 +858,38 @@ Proof.
   intros f lo hi b H X. destruct (solve_root_cases _ _ _ _ _ X) as [[[A|A] E]|[[A E]|[A E]]]; split; intros B; auto; exfalso; lra.
 Qed.
 
-Lemma searchZD_feasible_at_hmax : forall nested cap cont it e drill z, searchZD nested cap cont it e drill = Ok z ->
+Lemma searchZD_feasible_at_hmax : forall nested cap cont it e drill z, searchZD nested cap cont it e drill = Ok z -> zd_escaped z = false ->
   (e (zd_outer z) (zd_sel z) Hmax <= 0)%Q.
 Proof.
-  intros. destruct (searchZD_selected _ _ _ _ _ _ _ H) as (o & v & _ & _ & A & B). rewrite <- B. exact A.
+  intros until z. intros H Hesc. destruct (searchZD_selected _ _ _ _ _ _ _ H Hesc) as (o & v & _ & _ & A & B). rewrite <- B. exact A.
 Qed.
+
+(* ZD: when nothing in the chosen list meets the limits, the field its own search returned is kept and every candidate that search
+   evaluated at maximum height fails (the escape of the user who asked to continue) *)
+Lemma searchZD_escape nested cap cont it e drill z : searchZD nested cap cont it e drill = Ok z -> zd_escaped z = true ->
+  exists o, search1d (nthZ nested (zd_outer z)) cap cont it (e (zd_outer z)) = Ok o /\ zd_sel z = sel o /\
+            forall k v, In (k, v) (calc_out o) -> (0 < v)%Q.
+Proof.
+  unfold searchZD. destruct (lenZ nested =? 0); [discriminate|]. destruct (lenZ (nthZ nested 0) =? 0); [discriminate|].
+  destruct (search1d _ _ _ _ _) as [o0|]; [|discriminate].
+  destruct (zd_loop _ _ _ _ _ _ _ _ _ _ _ _ _) as [[[heights calcs] tr] st] eqn:EL.
+  destruct st as [u|]; [|discriminate].
+  destruct heights as [|h0 rest]; [discriminate|].
+  destruct (argmin_first rest h0) as [ko dmin].
+  destruct (find (fun kc => fst kc =? ko) calcs) as [[k1 calc]|] eqn:Ef; cbn [snd]; [|discriminate].
+  set (negs := filter _ (map snd calc)). destruct negs as [|n0 nt] eqn:En.
+  - destruct (search1d (nthZ nested ko) cap cont it (e ko)) as [o2|] eqn:E2; [|discriminate].
+    intros H _; inversion H; subst z; cbn. exists o2. split; [exact E2|]. split; [reflexivity|].
+    apply find_some in Ef. destruct Ef as [Hin Hk]. cbn in Hk. assert (k1 = ko) by lia. subst k1.
+    destruct (zd_loop_calcs _ _ _ _ _ _ _ _ _ _ _ _ _ _ _ _ _ EL ko calc Hin) as [[]|(o & Ho & Ec)].
+    rewrite E2 in Ho. inversion Ho; subst o. subst calc.
+    intros k v Hkv. destruct (Qlt_le_dec 0 v) as [P|P]; [exact P|exfalso].
+    assert (Hf : In v negs).
+    { unfold negs. apply filter_In. split; [apply in_map_iff; exists (k, v); auto|]. destruct (qleb_spec v 0); [reflexivity|contradiction]. }
+    rewrite En in Hf. exact Hf.
+  - destruct (index_of_value calc (qmaxl (n0 :: nt))); [|discriminate]. intros H Hesc; inversion H; subst z; cbn in Hesc; discriminate.
+Qed.
+
 
 Lemma size_after_feasible_at_hmax : forall (f : Q -> Q) (lo hi b eps H : Q), solve_root f lo hi b = Ok H -> (f hi < 0)%Q ->
   (((f lo < 0 /\ 0 < f hi) \/ (f hi < 0 /\ 0 < f lo))%Q -> (Qabs (f b) <= eps)%Q) -> (0 <= eps)%Q -> (f H <= eps)%Q.
